@@ -549,6 +549,378 @@ Proof.
   destruct (ind_loop _ _ _); eexists; [rewrite <- app_assoc; reflexivity|rewrite app_nil_r; reflexivity].
 Qed.
 
+From Coq Require Import String.
+(* ================================================================== 6b. the lexer on ARBITRARY input *)
+(* Invariant of the lexer model for every input text, well-formed or not: every location held in
+   the state (loc, prev, startLoc, the tokens emitted so far, the recorded error) is a prefix
+   position `advance (1,0) pre` of the input, hence (prefix_position) lies inside it. *)
+Section LexerInvariant.
+Variables uni_letter uni_digit uni_space : Z -> bool.
+Variable input : list Z.
+
+Notation adv0 := (advance (1, 0)).
+Definition PP (p : loc) : Prop := exists pre post, input = pre ++ post /\ p = adv0 pre.
+(* the position of the last rune of the input *)
+Definition LastP (p : loc) : Prop := exists pre' r, input = pre' ++ [r] /\ p = adv0 pre'.
+
+Definition Sync (l : lexer) : Prop :=
+  exists pre, input = pre ++ l_rest l /\ (l_loc l = adv0 pre \/ (l_rest l = [] /\ LastP (l_loc l))).
+Definition EofPrev (l : lexer) : Prop := l_rest l = [] -> l_prev l = adv0 input \/ LastP (l_prev l).
+
+Record Inv (l : lexer) : Prop := mkInv {
+  inv_sync : Sync l;
+  inv_eof : EofPrev l;
+  inv_prev : PP (l_prev l);
+  inv_start : PP (l_startLoc l);
+  inv_toks : forall t, In t (l_tokens l) -> PP (tloc t);
+  inv_err : forall e, l_err l = Some e -> PP e
+}.
+
+(* what `backup` needs: the state is the direct result of a `next` *)
+Definition Ready1 (l : lexer) : Prop :=
+  exists r w pre', l_word l = r :: w /\ input = pre' ++ r :: l_rest l /\ l_prev l = adv0 pre' /\ l_loc l = adv0 (pre' ++ [r]).
+Definition BSafe (l : lexer) : Prop :=
+  (l_width l = 0 -> l_rest l = [] \/ l_prev l = l_loc l) /\ (l_width l <> 0 -> Ready1 l).
+
+Lemma LastP_PP p : LastP p -> PP p.
+Proof. intros (pre' & r & E & ->). exists pre', [r]. auto. Qed.
+
+Lemma PP_end : PP (adv0 input).
+Proof. exists input, []. rewrite app_nil_r. auto. Qed.
+
+Lemma Inv_loc l : Inv l -> PP (l_loc l).
+Proof.
+  intros I. destruct (inv_sync l I) as (pre & E & [H|[_ H]]).
+  - exists pre, (l_rest l). auto.
+  - apply LastP_PP. exact H.
+Qed.
+
+(* updates that leave rest / loc / prev alone *)
+Lemma Inv_upd l l' : Inv l -> l_rest l' = l_rest l -> l_loc l' = l_loc l -> l_prev l' = l_prev l ->
+  PP (l_startLoc l') -> (forall t, In t (l_tokens l') -> PP (tloc t)) -> (forall e, l_err l' = Some e -> PP e) -> Inv l'.
+Proof.
+  intros I Hr Hl Hp Hs Ht He. constructor; auto.
+  - unfold Sync. rewrite Hr, Hl. exact (inv_sync l I).
+  - unfold EofPrev. rewrite Hr, Hp. exact (inv_eof l I).
+  - rewrite Hp. exact (inv_prev l I).
+Qed.
+
+Lemma next_inv l : Inv l -> Inv (adv l) /\ BSafe (adv l).
+Proof.
+  intros I. unfold adv, Lexer.next. destruct (l_rest l) as [|r t] eqn:R; cbn [snd].
+  - split.
+    + eapply Inv_upd; [exact I|cbn; symmetry; exact R|reflexivity|reflexivity|exact (inv_start l I)|exact (inv_toks l I)|exact (inv_err l I)].
+    + split; cbn; [auto|congruence].
+  - destruct (inv_sync l I) as (pre & E & [H|[H _]]); [|congruence]. rewrite R in E.
+    assert (Hn : adv_loc (l_loc l) r = adv0 (pre ++ [r])).
+    { rewrite advance_app, <- H. reflexivity. }
+    split.
+    + constructor; unfold Sync, EofPrev; cbn.
+      * exists (pre ++ [r]). split; [rewrite <- app_assoc; exact E|left; exact Hn].
+      * intros ->. right. exists pre, r. auto.
+      * exists pre, (r :: t). auto.
+      * exact (inv_start l I).
+      * exact (inv_toks l I).
+      * exact (inv_err l I).
+    + split; cbn; [congruence|]. intros _. exists r, (l_word l), pre. auto.
+Qed.
+
+Lemma backup_inv l : Inv l -> BSafe l -> Inv (backup l).
+Proof.
+  intros I [B0 B1]. unfold backup. destruct (Z.eqb_spec (l_width l) 0) as [W|W].
+  - destruct (B0 W) as [R|P].
+    + constructor; unfold Sync; cbn; [|exact (inv_eof l I)|exact (inv_prev l I)|exact (inv_start l I)|exact (inv_toks l I)|exact (inv_err l I)].
+      exists input. rewrite R, app_nil_r. split; [reflexivity|]. destruct (inv_eof l I R) as [H|H]; auto.
+    + eapply Inv_upd; [exact I|reflexivity|cbn; exact P|reflexivity|exact (inv_start l I)|exact (inv_toks l I)|exact (inv_err l I)].
+  - destruct (B1 W) as (r & w & pre' & Hw & E & Hp & Hl). rewrite Hw.
+    constructor; unfold Sync, EofPrev; cbn; [| |exact (inv_prev l I)|exact (inv_start l I)|exact (inv_toks l I)|exact (inv_err l I)].
+    + exists pre'. auto.
+    + discriminate.
+Qed.
+
+Lemma pk_inv l : Inv l -> Inv (pk l).
+Proof. intros I. unfold pk. destruct (next_inv l I). apply backup_inv; assumption. Qed.
+
+Lemma peek_inv l : Inv l -> Inv (snd (Lexer.peek l)).
+Proof. intros I. rewrite peek_eq. apply pk_inv. exact I. Qed.
+
+Lemma accept_eq valid l :
+  Lexer.accept valid l = if mem (fst (Lexer.next l)) valid then (true, adv l) else (false, pk l).
+Proof. unfold Lexer.accept, pk, adv. destruct (Lexer.next l) as [r l1]. cbn [fst snd]. destruct (mem r valid); reflexivity. Qed.
+
+Lemma accept_inv valid l : Inv l ->
+  Inv (snd (Lexer.accept valid l)) /\ (fst (Lexer.accept valid l) = true -> BSafe (snd (Lexer.accept valid l))).
+Proof.
+  intros I. rewrite accept_eq. destruct (next_inv l I) as [I1 B1]. destruct (mem _ valid); cbn [fst snd].
+  - auto.
+  - split; [apply pk_inv; exact I|discriminate].
+Qed.
+
+Lemma run_while_inv p : forall fuel l, Inv l -> Inv (run_while p fuel l).
+Proof.
+  induction fuel as [|f IH]; intros l I; cbn [run_while]; [exact I|].
+  destruct (next_inv l I) as [I1 B1]. unfold adv in *. destruct (Lexer.next l) as [r l1]. cbn [snd] in *.
+  destruct (p r); [apply IH; exact I1|apply backup_inv; assumption].
+Qed.
+
+Lemma acceptRun_inv valid l : Inv l -> Inv (acceptRun valid l).
+Proof. intros I. unfold acceptRun. apply run_while_inv. exact I. Qed.
+
+Lemma emitValue_inv k v l : Inv l -> Inv (emitValue k v l).
+Proof.
+  intros I. eapply Inv_upd; [exact I|reflexivity|reflexivity|reflexivity|exact (Inv_loc l I)| |exact (inv_err l I)].
+  cbn. intros t [<-|H]; [exact (inv_start l I)|exact (inv_toks l I t H)].
+Qed.
+Lemma emit_inv k l : Inv l -> Inv (emit k l).
+Proof. apply emitValue_inv. Qed.
+Lemma emitEOF_inv l : Inv l -> Inv (emitEOF l).
+Proof.
+  intros I. eapply Inv_upd; [exact I|reflexivity|reflexivity|reflexivity|exact (Inv_loc l I)| |exact (inv_err l I)].
+  cbn. intros t [<-|H]; [exact (inv_prev l I)|exact (inv_toks l I t H)].
+Qed.
+Lemma ignore_inv l : Inv l -> Inv (ignore l).
+Proof. intros I. eapply Inv_upd; [exact I|reflexivity|reflexivity|reflexivity|exact (Inv_loc l I)|exact (inv_toks l I)|exact (inv_err l I)]. Qed.
+Lemma set_error_inv l : Inv l -> Inv (set_error l).
+Proof.
+  intros I. unfold set_error. destruct (l_err l) eqn:E; [exact I|].
+  eapply Inv_upd; [exact I|reflexivity|reflexivity|reflexivity|exact (inv_start l I)|exact (inv_toks l I)|].
+  cbn. intros e H. inversion H; subst. apply Inv_loc. exact I.
+Qed.
+
+Lemma restore_inv saved l : Inv saved -> Inv l -> Inv (restore saved l).
+Proof.
+  intros Is I. constructor; cbn.
+  - exact (inv_sync saved Is).
+  - exact (inv_eof saved Is).
+  - exact (inv_prev saved Is).
+  - exact (inv_start l I).
+  - exact (inv_toks l I).
+  - exact (inv_err l I).
+Qed.
+
+Lemma next_snd_inv l : Inv l -> Inv (snd (Lexer.next l)).
+Proof. intros I. apply (next_inv l I). Qed.
+
+Lemma scanDigits_inv : forall n ch base l, Inv l -> Inv (snd (scanDigits ch base n l)).
+Proof.
+  induction n as [|n IH]; intros ch base l I; cbn [scanDigits]; [exact I|].
+  destruct (digitVal ch <? base).
+  - pose proof (next_snd_inv l I) as I1. destruct (Lexer.next l) as [ch' l']. apply IH. exact I1.
+  - apply set_error_inv. exact I.
+Qed.
+
+Lemma scanEscape_inv q l : Inv l -> Inv (snd (scanEscape q l)).
+Proof.
+  intros I. unfold scanEscape. pose proof (next_snd_inv l I) as I1. destruct (Lexer.next l) as [ch l1]. cbn [snd] in I1.
+  destruct (_ || _); [apply next_snd_inv; exact I1|].
+  destruct (mem ch _); [apply scanDigits_inv; exact I1|].
+  repeat (match goal with |- context [if ?b then _ else _] => destruct b end;
+          [pose proof (next_snd_inv l1 I1) as I2; destruct (Lexer.next l1) as [c l2]; apply scanDigits_inv; exact I2|]).
+  apply set_error_inv. exact I1.
+Qed.
+
+Lemma scanString_go_inv : forall fuel q ch l, Inv l -> Inv (scanString_go fuel q ch l).
+Proof.
+  induction fuel as [|f IH]; intros q ch l I; cbn [scanString_go]; [exact I|].
+  destruct (ch =? q); [exact I|]. destruct (_ || _); [apply set_error_inv; exact I|].
+  destruct (ch =? 92).
+  - pose proof (scanEscape_inv q l I) as I1. destruct (scanEscape q l) as [ch' l']. apply IH. exact I1.
+  - pose proof (next_snd_inv l I) as I1. destruct (Lexer.next l) as [ch' l']. apply IH. exact I1.
+Qed.
+
+Lemma scanString_inv q l : Inv l -> Inv (scanString q l).
+Proof.
+  intros I. unfold scanString. pose proof (next_snd_inv l I) as I1. destruct (Lexer.next l) as [ch l1].
+  apply scanString_go_inv. exact I1.
+Qed.
+
+Notation scanNumber_exp := (scanNumber_exp uni_letter uni_digit).
+Notation scanNumber_frac := (scanNumber_frac uni_letter uni_digit).
+Notation scanNumber := (scanNumber uni_letter uni_digit).
+
+Lemma accept_snd_inv valid l : Inv l -> Inv (snd (Lexer.accept valid l)).
+Proof. intros I. apply (accept_inv valid l I). Qed.
+
+Lemma scanNumber_exp_inv digits l : Inv l -> Inv (snd (scanNumber_exp digits l)).
+Proof.
+  intros I. unfold Lexer.scanNumber_exp.
+  pose proof (accept_snd_inv (rs "eE"%string) l I) as I1. destruct (Lexer.accept (rs "eE"%string) l) as [e l1]. cbn [snd] in I1.
+  set (l2 := if e then acceptRun digits (snd (Lexer.accept (rs "+-"%string) l1)) else l1).
+  assert (I2 : Inv l2) by (subst l2; destruct e; [apply acceptRun_inv, accept_snd_inv; exact I1|exact I1]).
+  pose proof (peek_inv l2 I2) as I3. destruct (Lexer.peek l2) as [p l3]. cbn [snd] in I3.
+  destruct (is_alnum _ _ p); cbn [snd]; [apply next_snd_inv; exact I3|exact I3].
+Qed.
+
+Lemma scanNumber_frac_inv digits l : Inv l -> Inv (snd (scanNumber_frac digits l)).
+Proof.
+  intros I. unfold Lexer.scanNumber_frac.
+  pose proof (accept_snd_inv (rs "."%string) l I) as I4. destruct (Lexer.accept (rs "."%string) l) as [d l4]. cbn [snd] in I4.
+  destruct d; [|apply scanNumber_exp_inv; exact I4].
+  pose proof (peek_inv l4 I4) as I5. destruct (Lexer.peek l4) as [p l5]. cbn [snd] in I5.
+  destruct (p =? 46); cbn [snd]; [apply restore_inv; assumption|].
+  apply scanNumber_exp_inv, acceptRun_inv. exact I5.
+Qed.
+
+Lemma scanNumber_prefix_inv l : Inv l -> Inv (snd (scanNumber_prefix l)).
+Proof.
+  intros I. unfold scanNumber_prefix.
+  pose proof (accept_snd_inv (rs "0"%string) l I) as I1. destruct (Lexer.accept (rs "0"%string) l) as [z l1]. cbn [snd] in I1.
+  destruct z; [|exact I1].
+  pose proof (accept_snd_inv (rs "xX"%string) l1 I1) as I2. destruct (Lexer.accept (rs "xX"%string) l1) as [x l2]. cbn [snd] in I2.
+  destruct x; [exact I2|].
+  pose proof (accept_snd_inv (rs "oO"%string) l2 I2) as I3. destruct (Lexer.accept (rs "oO"%string) l2) as [o l3]. cbn [snd] in I3.
+  destruct o; [exact I3|].
+  pose proof (accept_snd_inv (rs "bB"%string) l3 I3) as I4. destruct (Lexer.accept (rs "bB"%string) l3) as [b l4]. cbn [snd] in I4.
+  destruct b; exact I4.
+Qed.
+
+Lemma scanNumber_inv l : Inv l -> Inv (snd (scanNumber l)).
+Proof.
+  intros I. unfold Lexer.scanNumber.
+  pose proof (scanNumber_prefix_inv l I) as I2. destruct (scanNumber_prefix l) as [digits l2]. cbn [snd] in I2.
+  apply scanNumber_frac_inv, acceptRun_inv. exact I2.
+Qed.
+
+Lemma skip_spaces_inv : forall fuel l, Inv l -> Inv (skip_spaces fuel l).
+Proof.
+  induction fuel as [|f IH]; intros l I; cbn [skip_spaces]; [exact I|].
+  pose proof (peek_inv l I) as I1. destruct (Lexer.peek l) as [r l1]. cbn [snd] in I1.
+  destruct (r =? 32); [apply IH, next_snd_inv; exact I1|exact I1].
+Qed.
+
+Lemma expect_word_inv : forall w l, Inv l -> Inv (snd (expect_word w l)).
+Proof.
+  induction w as [|ch w IH]; intros l I; cbn [expect_word]; [exact I|].
+  pose proof (next_snd_inv l I) as I1. destruct (Lexer.next l) as [r l1]. cbn [snd] in I1.
+  destruct (r =? ch); [apply IH; exact I1|exact I1].
+Qed.
+
+Lemma acceptWord_inv w l : Inv l -> Inv (snd (acceptWord w l)).
+Proof.
+  intros I. unfold acceptWord.
+  pose proof (skip_spaces_inv (S (List.length (l_rest l))) l I) as I1.
+  pose proof (expect_word_inv w _ I1) as I2. destruct (expect_word w _) as [ok l2]. cbn [snd] in I2.
+  destruct ok; [|cbn [snd]; apply restore_inv; assumption].
+  pose proof (peek_inv l2 I2) as I3. destruct (Lexer.peek l2) as [r l3]. cbn [snd] in I3.
+  destruct (_ && _); cbn [snd]; [apply restore_inv; assumption|exact I3].
+Qed.
+
+Notation lstep := (Lexer.step uni_letter uni_digit uni_space).
+
+Lemma step_inv st l : Inv l -> Inv (snd (lstep st l)).
+Proof.
+  intros I. destruct st; cbn [Lexer.step].
+  - (* root *)
+    destruct (next_inv l I) as [I1 B1]. unfold adv in *. destruct (Lexer.next l) as [r l1]. cbn [snd] in *.
+    repeat match goal with
+    | |- Inv (snd (if ?b then _ else _)) => destruct b
+    | |- Inv (snd (_, ?x)) => cbn [snd]
+    | |- Inv (emitEOF _) => apply emitEOF_inv
+    | |- Inv (ignore _) => apply ignore_inv
+    | |- Inv (emit _ _) => apply emit_inv
+    | |- Inv (emitValue _ _ _) => apply emitValue_inv
+    | |- Inv (set_error _) => apply set_error_inv
+    | |- Inv (backup l1) => apply backup_inv; assumption
+    | |- Inv (scanString _ _) => apply scanString_inv
+    | |- Inv (snd (Lexer.accept _ _)) => apply accept_snd_inv
+    | |- Inv l1 => exact I1
+    | |- Inv (snd (match unescape ?w with _ => _ end)) => destruct (unescape w)
+    | |- Inv (snd (let (_, _) := Lexer.peek l1 in _)) =>
+        let I2 := fresh "I2" in pose proof (peek_inv l1 I1) as I2; destruct (Lexer.peek l1) as [p l2]; cbn [snd] in I2
+    | |- Inv ?x => assumption
+    end.
+  - (* number *)
+    pose proof (scanNumber_inv l I) as I1. destruct (Lexer.scanNumber uni_letter uni_digit l) as [ok l1]. cbn [snd] in I1.
+    destruct ok; cbn [snd]; [apply emit_inv|apply set_error_inv]; exact I1.
+  - (* dot *)
+    destruct (next_inv l I) as [I1 _]. unfold adv in *. destruct (Lexer.next l) as [r l1]. cbn [snd] in *.
+    destruct (accept_inv (rs "0123456789"%string) l1 I1) as [I2 B2]. destruct (Lexer.accept (rs "0123456789"%string) l1) as [d l2]. cbn [fst snd] in *.
+    destruct d; cbn [snd].
+    + apply backup_inv; auto.
+    + apply emit_inv, accept_snd_inv. exact I2.
+  - (* nilsafe *)
+    pose proof (next_snd_inv l I) as I1. destruct (Lexer.next l) as [r l1]. cbn [snd] in *.
+    apply emit_inv, accept_snd_inv. exact I1.
+  - (* identifier *)
+    pose proof (run_while_inv (is_alnum uni_letter uni_digit) (S (List.length (l_rest l))) l I) as I1.
+    destruct (runes_eqb _ _); cbn [snd]; [exact I1|].
+    destruct (existsb _ _); cbn [snd]; apply emit_inv; exact I1.
+  - (* not *)
+    pose proof (acceptWord_inv (rs "in"%string) l I) as I1. destruct (acceptWord (rs "in"%string) l) as [ok l1]. cbn [snd] in I1.
+    destruct ok; cbn [snd]; apply emitValue_inv; exact I1.
+Qed.
+
+Lemma lex_fuel_inv : forall fuel st l l', Inv l -> lex_fuel uni_letter uni_digit uni_space fuel st l = Some l' -> Inv l'.
+Proof.
+  induction fuel as [|f IH]; intros st l l' I H; cbn [lex_fuel] in H; [discriminate|].
+  pose proof (step_inv st l I) as I1. destruct (lstep st l) as [[st'|] l1]; cbn [snd] in I1.
+  - eapply IH; eauto.
+  - inversion H; subst. exact I1.
+Qed.
+
+Lemma init_inv : Inv (init input).
+Proof.
+  unfold init. constructor; unfold Sync, EofPrev; cbn.
+  - exists []. auto.
+  - intros ->. left. reflexivity.
+  - exists [], input. auto.
+  - exists [], input. auto.
+  - intros t [].
+  - discriminate.
+Qed.
+
+Lemma PP_inside p : PP p -> inside input p.
+Proof. intros (pre & post & -> & ->). apply prefix_inside. Qed.
+
+(* For EVERY input text: every token the lexer returns, and the location of the error it reports,
+   lies inside the text (1 <= line <= number of lines, 0 <= column <= length of that line). *)
+Theorem lex_locations_inside :
+  match lex uni_letter uni_digit uni_space input with
+  | LexOk toks => forall t, In t toks -> inside input (tloc t)
+  | LexErr e => inside input e
+  | LexOutOfFuel => True
+  end.
+Proof.
+  unfold lex. destruct (lex_fuel _ _ _ _ SRoot (init input)) as [l|] eqn:E; [|exact I].
+  pose proof (lex_fuel_inv _ _ _ _ init_inv E) as Il.
+  destruct (l_err l) as [e|] eqn:Ee.
+  - apply PP_inside. exact (inv_err l Il e Ee).
+  - intros t Ht. apply PP_inside. apply (inv_toks l Il). apply in_rev. exact Ht.
+Qed.
+
+(* a successful run ends with the EOF token: the token list is never empty *)
+Lemma set_error_some l : l_err (set_error l) <> None.
+Proof. unfold set_error. destruct (l_err l) eqn:E; [congruence|cbn; congruence]. Qed.
+
+Lemma step_none st l l1 : lstep st l = (None, l1) -> l_err l1 <> None \/ l_tokens l1 <> [].
+Proof.
+  destruct st; cbn [Lexer.step]; intros H;
+    repeat match goal with
+    | H : (let (_, _) := ?x in _) = _ |- _ => destruct x
+    | H : (if ?b then _ else _) = (None, _) |- _ => destruct b
+    | H : match ?x with _ => _ end = (None, _) |- _ => destruct x
+    | H : (Some _, _) = (None, _) |- _ => discriminate H
+    end;
+    inversion H; subst; first [left; apply set_error_some | right; cbn; congruence].
+Qed.
+
+Lemma lex_fuel_tokens : forall fuel st l l', lex_fuel uni_letter uni_digit uni_space fuel st l = Some l' ->
+  l_err l' <> None \/ l_tokens l' <> [].
+Proof.
+  induction fuel as [|f IH]; intros st l l' H; cbn [lex_fuel] in H; [discriminate|].
+  destruct (lstep st l) as [[st'|] l1] eqn:E.
+  - eapply IH; eauto.
+  - inversion H; subst. eapply step_none; eauto.
+Qed.
+
+Theorem lex_ok_nonempty : forall toks, lex uni_letter uni_digit uni_space input = LexOk toks -> toks <> [].
+Proof.
+  intros toks H. unfold lex in H. destruct (lex_fuel _ _ _ _ SRoot (init input)) as [l|] eqn:E; [|discriminate].
+  destruct (lex_fuel_tokens _ _ _ _ E) as [He|Ht]; destruct (l_err l); try congruence.
+  inversion H; subst. intros Hr. apply Ht. apply (f_equal (@rev token)) in Hr. rewrite rev_involutive in Hr. exact Hr.
+Qed.
+End LexerInvariant.
+
 (* ================================================================== 7. parser: error locations *)
 Require Import X.Base.Num X.Syn.Ast X.Parse.Parser X.Parse.Printer X.Parse.ParseProofs.
 
@@ -910,4 +1282,195 @@ Proof.
   destruct (run_compiled fe cfg env e Hc) as [d0 H].
   - rewrite He. cbn. destruct er; auto.
   - exists d0. intros d Hd. rewrite (H d Hd), He. reflexivity.
+Qed.
+
+(* ---- the location at which the reference semantics stops is the location of a node of the
+   expression: the node whose own operation fails *)
+Inductive sub_of : expr -> expr -> Prop :=
+| sub_refl : forall e, sub_of e e
+| sub_step : forall x c e, In c (children e) -> sub_of x c -> sub_of x e.
+
+Definition located_in (e : expr) (l : loc) : Prop := exists x, sub_of x e /\ l = loc_of x.
+
+Lemma located_here e : located_in e (loc_of e).
+Proof. exists e. split; [constructor|reflexivity]. Qed.
+
+Lemma located_child c e l : In c (children e) -> located_in c l -> located_in e l.
+Proof. intros Hc (x & Hs & El). exists x. split; [econstructor; eauto|exact El]. Qed.
+
+Ltac crunch :=
+  repeat match goal with
+  | H : Stop _ _ _ = Stop _ _ _ |- _ => inversion H; subst; clear H
+  | H : Done _ _ = Stop _ _ _ |- _ => discriminate H
+  | H : rbind ?r _ = Stop _ _ _ |- _ => destruct r eqn:?; cbn [rbind] in H
+  | H : lift _ _ ?o _ = Stop _ _ _ |- _ => destruct o eqn:?; cbn [lift] in H
+  | H : alloc _ _ _ _ _ = Stop _ _ _ |- _ => unfold alloc in H
+  | H : (if ?b then _ else _) = Stop _ _ _ |- _ => destruct b eqn:?
+  | H : match ?x with _ => _ end = Stop _ _ _ |- _ => destruct x eqn:?
+  end.
+
+Section StopLocation.
+Variable fe : fenv.
+Variable cfg : config.
+Variable env : value.
+Notation ev := (eval fe cfg env).
+
+Lemma do_call_stop l fast id recv args s er l' s' :
+  do_call fe l fast id recv args s = Stop er l' s' -> l' = l.
+Proof. unfold do_call. intros H. crunch; reflexivity. Qed.
+
+Section Loops.
+Variable Q : loc -> Prop.
+Variable body : Z -> rstate -> result.
+Variable l : loc.
+Hypothesis Hbody : forall i s er l' s', body i s = Stop er l' s' -> Q l'.
+Hypothesis Hl : Q l.
+
+Lemma all_loop_stop : forall n i s er l' s', all_loop body l n i s = Stop er l' s' -> Q l'.
+Proof. induction n; intros i s er l' s' H; cbn [all_loop] in H; crunch; eauto. Qed.
+Lemma none_loop_stop : forall n i s er l' s', none_loop body l n i s = Stop er l' s' -> Q l'.
+Proof. induction n; intros i s er l' s' H; cbn [none_loop] in H; crunch; eauto. Qed.
+Lemma any_loop_stop : forall n i s er l' s', any_loop body l n i s = Stop er l' s' -> Q l'.
+Proof. induction n; intros i s er l' s' H; cbn [any_loop] in H; crunch; eauto. Qed.
+Lemma count_loop_stop : forall k, (forall c s er l' s', k c s = Stop er l' s' -> Q l') ->
+  forall n i c s er l' s', count_loop body l n i c s k = Stop er l' s' -> Q l'.
+Proof. intros k Hk. induction n; intros i c s er l' s' H; cbn [count_loop] in H; crunch; eauto. Qed.
+Lemma filter_loop_stop : forall elem k, (forall xs s er l' s', k xs s = Stop er l' s' -> Q l') ->
+  forall n i acc s er l' s', filter_loop body l elem n i acc s k = Stop er l' s' -> Q l'.
+Proof. intros elem k Hk. induction n; intros i acc s er l' s' H; cbn [filter_loop] in H; crunch; eauto. Qed.
+Lemma map_loop_stop : forall k, (forall xs s er l' s', k xs s = Stop er l' s' -> Q l') ->
+  forall n i acc s er l' s', map_loop body n i acc s k = Stop er l' s' -> Q l'.
+Proof. intros k Hk. induction n; intros i acc s er l' s' H; cbn [map_loop] in H; crunch; eauto. Qed.
+End Loops.
+
+Definition stops_inside (e : expr) : Prop :=
+  forall ctx s er l s', ev ctx e s = Stop er l s' -> located_in e l.
+
+Lemma evl_stop es : (forall x, In x es -> stops_inside x) ->
+  forall ctx r er l r', evl fe cfg env ctx es r = LStop er l r' -> exists x, In x es /\ located_in x l.
+Proof.
+  induction es as [|x rest IH]; intros Hall ctx r er l r' H; cbn [evl] in H; [discriminate|].
+  destruct (ev ctx x r) as [v r1|e0 l0 r1] eqn:E.
+  - destruct (evl fe cfg env ctx rest r1) as [vs r2|e1 l1 r2] eqn:E2; [discriminate|].
+    inversion H; subst. destruct (IH (fun y Hy => Hall y (or_intror Hy)) ctx r1 _ _ _ E2) as (y & Hy & Ly).
+    exists y. split; [right; exact Hy|exact Ly].
+  - inversion H; subst. exists x. split; [left; reflexivity|]. eapply Hall; [left; reflexivity|exact E].
+Qed.
+
+Lemma evp_stop here ps : (forall p, In p ps -> forall a k v, p = EPair a k v -> stops_inside k /\ stops_inside v) ->
+  forall ctx s er l s', evp fe cfg env ctx here ps s = PStop er l s' -> l = here \/ exists p, In p ps /\ located_in p l.
+Proof.
+  induction ps as [|p rest IH]; intros Hall ctx s er l s' H; cbn [evp] in H; [discriminate|].
+  destruct p; try (inversion H; subst; left; reflexivity).
+  destruct (Hall _ (or_introl eq_refl) _ _ _ eq_refl) as [Hk Hv].
+  destruct (ev ctx p1 s) as [vk s1|e0 l0 s1] eqn:E1.
+  - destruct (ev ctx p2 s1) as [vv s2|e1 l1 s2] eqn:E2.
+    + destruct (evp fe cfg env ctx here rest s2) as [kvs s3|e2 l2 s3] eqn:E3; [discriminate|].
+      inversion H; subst. destruct (IH (fun q Hq => Hall q (or_intror Hq)) ctx s2 _ _ _ E3) as [->|(q & Hq & Lq)]; [left; reflexivity|].
+      right. exists q. split; [right; exact Hq|exact Lq].
+    + inversion H; subst. right. eexists. split; [left; reflexivity|].
+      eapply located_child; [|eapply Hv; exact E2]. cbn [children]. auto with datatypes.
+  - inversion H; subst. right. eexists. split; [left; reflexivity|].
+    eapply located_child; [|eapply Hk; exact E1]. cbn [children]. auto with datatypes.
+Qed.
+
+Ltac fin IH :=
+  first [ solve [apply located_here]
+        | match goal with
+          | E : eval _ _ _ _ ?c _ = Stop _ ?l _ |- located_in _ ?l =>
+              solve [eapply located_child; [|eapply IH; [|exact E]]; [cbn [children opt_list app]; auto with datatypes|cbn [esize] in *; lia]]
+          end ].
+
+Lemma stop_located_sized : forall n e, (esize e < n)%nat -> stops_inside e.
+Proof.
+  induction n as [|n IH]; intros e Hn; [lia|].
+  assert (IHs : forall c, (esize c < esize e)%nat -> stops_inside c) by (intros c Hc; apply IH; lia).
+  clear IH. intros ctx s er l s' H.
+  destruct e; try rewrite eval_function_eq in H; try rewrite eval_method_eq in H;
+    try rewrite eval_array_eq in H; try rewrite eval_map_eq in H.
+  all: try (cbn [eval] in H; cbv zeta in H; cbn [loc_of ann_of] in H).
+  all: try solve [crunch; fin IHs].
+  - (* method *)
+    destruct (ev ctx e s) as [v r1|e0 l0 r1] eqn:E0; cbn [rbind] in H.
+    + rewrite eval_list_evl in H. destruct (evl fe cfg env ctx args r1) as [vs r2|e1 l1 r2] eqn:E1.
+      * assert (l = aloc a).
+        { destruct nilsafe; [destruct v|]; crunch; try reflexivity; eapply do_call_stop; eauto. }
+        subst. apply (located_here (EMethod a e name args nilsafe)).
+      * inversion H; subst. destruct (evl_stop args) with (1 := fun x Hx => IHs x ltac:(cbn [esize]; pose proof (in_lsize x args Hx); rewrite lsize_eq; lia)) (2 := E1) as (x & Hx & Lx).
+        eapply located_child; [|exact Lx]. cbn [children]. right. exact Hx.
+    + inversion H; subst. fin IHs.
+  - (* function *)
+    rewrite eval_list_evl in H. destruct (evl fe cfg env ctx args s) as [vs r2|e1 l1 r2] eqn:E1.
+    + assert (l = aloc a) by (crunch; try reflexivity; eapply do_call_stop; eauto).
+      subst. apply (located_here (EFunction a name args fast)).
+    + inversion H; subst. destruct (evl_stop args) with (1 := fun x Hx => IHs x ltac:(cbn [esize]; pose proof (in_lsize x args Hx); rewrite lsize_eq; lia)) (2 := E1) as (x & Hx & Lx).
+      eapply located_child; [|exact Lx]. exact Hx.
+  - (* builtin *)
+    assert (Hc : forall c, In c args -> forall i s er l' s' v, ev ((v, i) :: ctx) c s = Stop er l' s' -> located_in (EBuiltin a b args) l').
+    { intros c Hc i s0 er0 l0 s0' v E. eapply located_child; [exact Hc|]. eapply IHs; [|exact E].
+      cbn [esize]. pose proof (in_lsize c args Hc). rewrite lsize_eq. lia. }
+    assert (Hh : located_in (EBuiltin a b args) (aloc a)) by apply (located_here (EBuiltin a b args)).
+    destruct b; try (inversion H; subst; exact Hh);
+      destruct args as [|x [|c [|z rest]]]; try (inversion H; subst; exact Hh);
+      (destruct (ev ctx x s) as [v r1|e0 l0 r1] eqn:E0; cbn [rbind] in H;
+       [|inversion H; subst; eapply located_child; [left; reflexivity|]; eapply IHs; [|exact E0]; cbn [esize]; lia]);
+      try (destruct (p_length v) as [len|e1] eqn:E1; cbn [lift] in H; [|inversion H; subst; exact Hh]).
+    + crunch; exact Hh.
+    + eapply all_loop_stop; [..|exact H]; [intros i0 s0 er0 l0 s0' Hb; cbv beta in Hb; eapply Hc; [right; left; reflexivity|exact Hb]|exact Hh].
+    + eapply none_loop_stop; [..|exact H]; [intros i0 s0 er0 l0 s0' Hb; cbv beta in Hb; eapply Hc; [right; left; reflexivity|exact Hb]|exact Hh].
+    + eapply any_loop_stop; [..|exact H]; [intros i0 s0 er0 l0 s0' Hb; cbv beta in Hb; eapply Hc; [right; left; reflexivity|exact Hb]|exact Hh].
+    + eapply count_loop_stop; [..|exact H]; [intros i0 s0 er0 l0 s0' Hb; cbv beta in Hb; eapply Hc; [right; left; reflexivity|exact Hb]|exact Hh|intros c0 s0 er0 l0 s0' Hk; cbv beta in Hk; crunch; exact Hh].
+    + eapply filter_loop_stop; [..|exact H]; [intros i0 s0 er0 l0 s0' Hb; cbv beta in Hb; eapply Hc; [right; left; reflexivity|exact Hb]|exact Hh|intros xs s0 er0 l0 s0' Hk; cbv beta in Hk; crunch; exact Hh].
+    + eapply map_loop_stop; [..|exact H]; [intros i0 s0 er0 l0 s0' Hb; cbv beta in Hb; eapply Hc; [right; left; reflexivity|exact Hb]|intros xs s0 er0 l0 s0' Hk; cbv beta in Hk; crunch; exact Hh].
+    + eapply count_loop_stop; [..|exact H]; [intros i0 s0 er0 l0 s0' Hb; cbv beta in Hb; eapply Hc; [right; left; reflexivity|exact Hb]|exact Hh|intros c0 s0 er0 l0 s0' Hk; cbv beta in Hk; crunch; exact Hh].
+  - (* array *)
+    rewrite eval_list_evl in H. destruct (evl fe cfg env ctx es s) as [vs r2|e1 l1 r2] eqn:E1.
+    + crunch. apply (located_here (EArray a es)).
+    + inversion H; subst. destruct (evl_stop es) with (1 := fun x Hx => IHs x ltac:(cbn [esize]; pose proof (in_lsize x es Hx); rewrite lsize_eq; lia)) (2 := E1) as (x & Hx & Lx).
+      eapply located_child; [|exact Lx]. exact Hx.
+  - (* map *)
+    rewrite eval_pairs_evp in H. destruct (evp fe cfg env ctx (aloc a) pairs s) as [kvs r2|e1 l1 r2] eqn:E1.
+    + crunch; apply (located_here (EMap a pairs)).
+    + inversion H; subst.
+      destruct (evp_stop (aloc a) pairs) with (2 := E1) as [->|(p & Hp & Lp)].
+      * intros p Hp a0 k v ->. pose proof (in_lsize _ pairs Hp) as Hs. cbn [esize] in Hs.
+        split; apply IHs; cbn [esize]; rewrite lsize_eq; lia.
+      * apply (located_here (EMap a pairs)).
+      * eapply located_child; [|exact Lp]. exact Hp.
+Qed.
+
+(* Every failure of the reference semantics is located at a node of the expression. *)
+Theorem stop_located : forall e ctx s er l s', ev ctx e s = Stop er l s' -> located_in e l.
+Proof. intros e. exact (stop_located_sized (S (esize e)) e (Nat.lt_succ_diag_r _)). Qed.
+End StopLocation.
+
+(* the run-time location theorem with the node made explicit *)
+Theorem run_loc_at_node : forall fe cfg env e er l r',
+  compilable e = true ->
+  eval fe cfg env [] e rs0 = Stop er l r' ->
+  (er = EMachine -> l <> noloc) ->
+  located_in e l /\
+  exists d0, forall d, (d0 <= d)%nat ->
+    run_code fe cfg env (compile (c_mapenv cfg) e) d = Some (Stop er l r').
+Proof.
+  intros fe cfg env e er l r' Hc He Hm. split.
+  - eapply stop_located; exact He.
+  - eapply run_loc; eauto.
+Qed.
+
+(* ================================================================== 11. lexer + parser: syntax errors lie inside the source *)
+(* For EVERY source text: whatever Parse reports — a lexer error, or the parser's first error on
+   the tokens the lexer returned — is located inside the text. *)
+Theorem syntax_error_inside : forall uni_letter uni_digit uni_space (g : grammar) (o : oracles) src,
+  match lex uni_letter uni_digit uni_space src with
+  | LexErr e => inside src e
+  | LexOk toks => forall l, parse g o toks = RErr l -> inside src l
+  | LexOutOfFuel => True
+  end.
+Proof.
+  intros ul ud us g o src. pose proof (lex_locations_inside ul ud us src) as H.
+  pose proof (lex_ok_nonempty ul ud us src) as Hne.
+  destruct (lex ul ud us src) as [toks|e|]; auto.
+  intros l Hp. destruct (syntax_error_at_token g o toks l (Hne toks eq_refl) Hp) as (t & Ht & ->).
+  apply H. exact Ht.
 Qed.
